@@ -24,6 +24,14 @@ Data layout (as in Go):
     codes (name 0 = ""); `*Symbol` pointers are represented by the symbol's id where Go uses
     them as map keys (`degree`, `visited`, `slices.Contains(linked, ·)`) – at any time there is
     at most one live `*Symbol` per id.
+  * hooks: the observing load / unload hooks are one notification (`load` / `unload` event); the
+    table may also hold refusing hooks (`State.refusals`, never changed by an operation): a load hook
+    registered before / after the observing ones, an unload hook registered after / before them
+    (`LoadHooks.Load` runs in registration order and stops at the first error, `UnloadHooks.Unload`
+    runs in reverse order and stops at the first error), refusing chosen symbols once or always.
+  * lifecycle answers: every `types.Error` payload is an error for `exec`, `packet.ErrDroppedPacket`
+    (`droppedCode`) included; a node that was closed before its `*Symbol` was inserted again
+    (`resp = some closedCode`) answers with it without seeing the request.
   * `log` records what an observer sees: load / unload hook calls, `Node.Close` calls and every
     call of `exec` (the synchronous lifecycle flow) with the in-ports that received the packet.
 
@@ -110,6 +118,22 @@ inductive Event where
   /-- `exec(sb, phase)` was called; `targets` are the in-ports `(symbol, port)` its temporary
   out-port was linked to, i.e. the nodes that received the packet. -/
   | exec (ph : Phase) (id : Nat) (targets : List (Nat × Nat))
+  /-- a load (`unload = false`) / unload hook that runs before (`after = false`) / after the
+  observing hooks refused the symbol: it returned an error -/
+  | refused (unload after : Bool) (id : Nat)
+  deriving DecidableEq, Repr
+
+/-- A hook of the table that refuses a symbol (returns an error for it). `unload`: an unload hook;
+`after = false`: it runs before the hooks that record the notification (for load hooks: registered
+before them – `LoadHooks.Load` runs in registration order; for unload hooks: registered after them –
+`UnloadHooks.Unload` runs in reverse order), `after = true`: it runs after them. `once`: it refuses
+the symbol the first time only. `code` is the error it returns. -/
+structure Refusal where
+  unload : Bool
+  after : Bool
+  sym : Nat
+  once : Bool
+  code : Nat
   deriving DecidableEq, Repr
 
 abbrev PortMap := List (Nat × List Ref)
@@ -120,6 +144,8 @@ structure State where
   references : List (Nat × PortMap) := []
   links : List Link := []
   log : List Event := []
+  /-- the refusing hooks the table was built with (never changed by an operation) -/
+  refusals : List Refusal := []
   deriving Repr
 
 /-- Result of a table operation: nil error, the error(s) a lifecycle flow answered with
@@ -358,20 +384,64 @@ def execTargets (st : State) (sb : Sym) (ph : Phase) : List (Nat × Nat) :=
   | none => []
   | some ports => ports.foldl (execTarget st sb) []
 
-/-- What the node of symbol `id` answers. -/
+/-- `resp = some closedCode`: the symbol's node had been closed before the symbol was inserted
+(the code allows to insert a freed `*Symbol` again): its in-ports answer every packet with
+`packet.ErrDroppedPacket` (`droppedCode`) and the node itself never sees the request. -/
+def closedCode : Nat := 62
+/-- the error code of `packet.ErrDroppedPacket` (also answered by a responder that chooses to) -/
+def droppedCode : Nat := 63
+
+/-- What the node of symbol `id` answers (every `types.Error` payload – a dropped packet included –
+is an error for `exec`). -/
 def respOf (st : State) (t : Nat × Nat) : Option Nat :=
   match aget t.1 st.symbols with
   | none => none
-  | some s => s.resp
+  | some s => if s.resp = some closedCode then some droppedCode else s.resp
+
+/-- The node of the target sees the request (it is not a closed node). -/
+def seen (st : State) (t : Nat × Nat) : Bool :=
+  match aget t.1 st.symbols with
+  | none => true
+  | some s => s.resp != some closedCode
 
 /-- `t.exec(sb, phase)`: send the spec to every linked in-port, wait for the joined answer;
-no link = `packet.None` = nil error. -/
+no link = `packet.None` = nil error. The event lists the nodes that received the packet. -/
 def exec (st : State) (sb : Sym) (ph : Phase) : State × Ret :=
   let ts := execTargets st sb ph
-  let st' := { st with log := st.log ++ [.exec ph sb.id ts] }
+  let st' := { st with log := st.log ++ [.exec ph sb.id (ts.filter (seen st))] }
   match ts.filterMap (respOf st) with
   | [] => (st', .ok)
   | es => (st', .err es)
+
+/-- The error with which the hooks at position (`unload`, `after`) refuse symbol `id` now, if any:
+the first configured refusal for it that is permanent or has not fired yet (a refusal that fires
+is recorded in the log, so "once" needs no further state). -/
+def refusalOf (st : State) (unload after : Bool) (id : Nat) : Option Nat :=
+  match st.refusals.find? (fun r => r.unload == unload && r.after == after && r.sym == id &&
+      (!r.once || !(st.log.contains (.refused unload after id)))) with
+  | some r => some r.code
+  | none => none
+
+/-- Run the refusing hooks at one position: nothing happens, or the refusal is recorded and its
+error returned (`LoadHooks.Load` / `UnloadHooks.Unload` stop at the first hook that fails). -/
+def hookRun (st : State) (unload after : Bool) (x : Sym) : State × Ret :=
+  match refusalOf st unload after x.id with
+  | none => (st, .ok)
+  | some c => ({ st with log := st.log ++ [.refused unload after x.id] }, .err [c])
+
+/-- One activation (`unl = false`: init flow, load hooks, begin flow) or deactivation (term flow,
+unload hooks, final flow) of an activated symbol; the hooks are: the refusing hooks that run first,
+the observing hooks (one `mid` event), the refusing hooks that run last. Every error ends it. -/
+def notify (st : State) (x : Sym) (unl : Bool) (p1 p2 : Phase) (mid : Nat → Event) : State × Ret :=
+  match exec st x p1 with
+  | (st1, .ok) =>
+    match hookRun st1 unl false x with
+    | (st2, .ok) =>
+      match hookRun { st2 with log := st2.log ++ [mid x.id] } unl true x with
+      | (st3, .ok) => exec st3 x p2
+      | (st3, r) => (st3, r)
+    | (st2, r) => (st2, r)
+  | (st1, r) => (st1, r)
 
 /-- The loop of `load` over `linked`. -/
 def loadLoop (o : Ord) (st : State) : List Sym → State × Ret
@@ -381,11 +451,8 @@ def loadLoop (o : Ord) (st : State) : List Sym → State × Ret
     | none => (st, .panic)
     | some false => loadLoop o st xs
     | some true =>
-      match exec st x .init with
-      | (st1, .ok) =>
-        match exec { st1 with log := st1.log ++ [.load x.id] } x .begin with
-        | (st2, .ok) => loadLoop o st2 xs
-        | (st2, r) => (st2, r)
+      match notify st x false .init .begin Event.load with
+      | (st1, .ok) => loadLoop o st1 xs
       | (st1, r) => (st1, r)
 
 /-- The loop of `unload` (called on the reversed `linked`). -/
@@ -396,11 +463,8 @@ def unloadLoop (o : Ord) (st : State) : List Sym → State × Ret
     | none => (st, .panic)
     | some false => unloadLoop o st xs
     | some true =>
-      match exec st x .term with
-      | (st1, .ok) =>
-        match exec { st1 with log := st1.log ++ [.unload x.id] } x .final with
-        | (st2, .ok) => unloadLoop o st2 xs
-        | (st2, r) => (st2, r)
+      match notify st x true .term .final Event.unload with
+      | (st1, .ok) => unloadLoop o st1 xs
       | (st1, r) => (st1, r)
 
 def load (o : Ord) (st : State) (sb : Sym) : State × Ret :=
